@@ -2,6 +2,7 @@ package worlds
 
 import (
 	"context"
+	"os"
 	"fmt"
 	"sort"
 	"strconv"
@@ -129,6 +130,9 @@ func NewGossipWorld(s *simrt.Sim) *GossipWorld {
 	s.SetPKeep(c.PKeep)
 	w.net = fakeml.NewNetwork()
 	w.net.Spawn = func(name string, f func()) { s.Spawn(name, f) }
+	if os.Getenv("VSIM_PROXYLOG") != "" {
+		w.net.Logf = func(format string, args ...any) { s.Log(format, args...) }
+	}
 	fakeml.Use(w.net)
 	seam.Reset()
 	addrs := map[string]string{}
